@@ -647,9 +647,17 @@ impl Client {
             .writer
             .lock()
             .map_err(|_| poisoned_lock_error("client writer"))?;
-        write_message(&mut *writer, msg)?;
-        writer.flush()?;
-        Ok(())
+        let result = write_message(&mut *writer, msg)
+            .and_then(|()| writer.flush().map_err(RepeError::from));
+        if result.is_err() {
+            // A failed or timed-out write can leave part of this frame on the
+            // wire (and the rest in the `BufWriter`). The peer could never
+            // re-synchronise if another frame followed it, so the connection
+            // is failed: the reader sees the shutdown and fails every waiter,
+            // and later writes are refused.
+            let _ = writer.get_ref().shutdown(Shutdown::Both);
+        }
+        result
     }
 
     fn remove_pending(&self, id: u64) {
